@@ -11,7 +11,7 @@
 (*       hc[s]           a custom heuristic (cost-to-go estimate) in HALF units          *)
 (*       cfgs            the configurations to explore: alg in {astar,bfs},             *)
 (*                       tie in {lifo,fifo,random}, rnd in {0,1} (randomize_action_     *)
-(*                       order), hk in {zero,exact,half,custom}                         *)
+(*                       order), hk in {zero,exact,half,custom,relaxed}                 *)
 (*     All heuristics are in half units (so that exact/2 is an integer); INF stands for  *)
 (*     float('inf').  f-values of the machine are 2*g + h, or INF when h = INF (IEEE:    *)
 (*     g + inf = inf, so all such nodes tie on f).                                       *)
@@ -66,7 +66,8 @@ IsGoal(g, s) == g.goal[s] = 1
 \* ------------------------------------------------------------------ (O) the oracle
 AddInf(c, d) == IF d >= INF THEN INF ELSE c + d
 MinOver(S)   == IF S = {} THEN INF ELSE MinSet(S)
-EdgeCost(g, s, a, unit) == IF unit THEN 1 ELSE g.cost[s][a]
+\* cost model: "cost" the real costs, "unit" every step costs 1, "relaxed" min(cost, 1)
+EdgeCost(g, s, a, unit) == IF unit = "unit" THEN 1 ELSE IF unit = "relaxed" THEN MinI(g.cost[s][a], 1) ELSE g.cost[s][a]
 
 \* one Bellman-Ford round of the cost-to-go; absorbing states are worth 0 and are never left
 ToGoStep(g, d, unit) ==
@@ -91,7 +92,10 @@ HeurMenu(g, togo) ==
   [zero   |-> [s \in Nodes(g) |-> 0],
    exact  |-> [s \in Nodes(g) |-> IF togo[s] >= INF THEN INF ELSE 2 * togo[s]],
    half   |-> [s \in Nodes(g) |-> IF togo[s] >= INF THEN INF ELSE togo[s]],
-   custom |-> [s \in Nodes(g) |-> g.hc[s]]]
+   custom |-> [s \in Nodes(g) |-> g.hc[s]],
+   \* exact cost-to-go of the relaxed copy (costs min(c, 1)): the real run obtains it from a nested
+   \* AStarSearch / BreadthFirstSearch on that copy, called lazily inside heuristic_value
+   relaxed |-> LET r == ToGo(g, "relaxed") IN [s \in Nodes(g) |-> IF r[s] >= INF THEN INF ELSE 2 * r[s]]]
 
 \* consistency: h(goal) = 0 and h(s) <= c(s,a) + h(s') on every real edge (instance filter)
 Consistent(g, h) ==
@@ -101,10 +105,10 @@ Consistent(g, h) ==
   /\ \A s \in Nodes(g) : h[s] >= 0 /\ h[s] <= INF
 
 Oracle(g) ==
-  LET togo == ToGo(g, FALSE)
-      hops == ToGo(g, TRUE)
-      from == FromStart(g, FALSE)
-      fh   == FromStart(g, TRUE)
+  LET togo == ToGo(g, "cost")
+      hops == ToGo(g, "unit")
+      from == FromStart(g, "cost")
+      fh   == FromStart(g, "unit")
   IN [togo |-> togo, hops |-> hops, from |-> from, hz |-> TLCEval(HeurMenu(g, togo)),
       \* a strictly worse way of reaching a goal exists: a wrong choice would be visible
       subcost |-> \E s \in Nodes(g) \ Goals(g) : \E a \in Av(g, s) :
@@ -382,7 +386,7 @@ SupersededOnlyAmongInfiniteTies ==
 InstanceWellFormed == phase = "oracle" =>
   /\ G.start \in Nodes(G)
   /\ \A s \in Nodes(G) : \A a \in 1..G.K : G.nxt[s][a] \in Nodes(G) /\ G.cost[s][a] >= 0 /\ G.cost[s][a] < 1000
-HeuristicsConsistent == phase = "oracle" => \A k \in {"zero", "exact", "half", "custom"} : Consistent(G, orc.hz[k])
+HeuristicsConsistent == phase = "oracle" => \A k \in {"zero", "exact", "half", "custom", "relaxed"} : Consistent(G, orc.hz[k])
 \* A*: a state is visited with its optimal cost from the start (consistent heuristic).  States with an
 \* infinite heuristic cannot reach a goal; they all tie on f = inf and are visited in tie-break order.
 VisitedWithOptimalCost ==
